@@ -35,9 +35,13 @@ ASSUMPTIONS = [
   "attack with a stream-valued sustain: only the attack/decay lines (towards the first "
   "sustain item), finiteness and 'the rest is a suffix of the sustain stream' are asserted",
   "modulo > 0; exactness is claimed for Q / int / dyadic-float arguments (all exact in "
-  "their own arithmetic); float drift is out of scope",
+  "their own arithmetic); for ordinary floats (k/10, k/3, free doubles) the range 0 <= y < modulo is "
+  "asserted exactly on every branch and, with a constant modulo, the value within 1e-9*max(1, modulo) of "
+  "the exact sum of the given doubles, measured round the circle; |step| is 0 or >= 1e-6",
   "TableLookup: tbl[idx] is checked for idx >= 0 (the oscillator only produces [0, L)); "
   "the float constant L/(cycles*2*pi) is taken at its exact double value",
+  "sinusoid: freq and phase are each a number or a finite stream; item n of a phase stream is the phase "
+  "of sample n and the output ends with the shortest stream",
   "sinusoid / float oscillator / karplus_strong: tolerance 1e-9 (relative to the "
   "amplitude), > 10^5 above the observed rounding error; float frequencies are 0 or at "
   "least 1e-6 in magnitude (for |freq| < ~3.5e-308 modulo/step overflows to inf inside "
@@ -549,11 +553,197 @@ def run_modcount(case):
   return {"nontrivial": n >= 4 and nonint and wraps >= 1, "labels": labels}
 
 
+def _lag2freq(lag):
+  return 2 * math.pi / lag
+
+
 def ffloat(lo, hi):
   """floats in [lo, hi]; magnitudes under 1e-6 are snapped to 0 (frequencies so small that
   modulo/step overflows a double are outside the domain, see ASSUMPTIONS)"""
   return st.floats(min_value=lo, max_value=hi, allow_nan=False).map(
     lambda v: v if abs(v) >= 1e-6 else 0.)
+
+
+# --------------------------------------------------------------------------
+# modulo_counter with ordinary (non-dyadic) floats: the range [0, modulo)
+# --------------------------------------------------------------------------
+# "reduced into [0, modulo)" is a claim about the range of every output, whatever the number
+# type: a float running sum that goes up and comes down again (.3 - .1 - .1 - .1) lands a
+# rounding error beside the multiple of the modulo that exact arithmetic would hit - a hair
+# below zero as often as above.  Values are k / den floats (den = 10, 3, 7, ... - the decimal
+# fractions people write), the step sequence is made of excursions whose exact sum is 0 or
+# +-modulo, so that such landings happen several times per case, on every one of the 8
+# number-vs-stream branches.
+_FDEN = [10, 10, 10, 3, 7, 100, 6, 1000]
+# block kinds: first the sum then the parts back / first the parts then the sum back /
+# parts only (free walk) / the parts scaled so that they add up to the modulo
+_FBLOCK = st.tuples(st.sampled_from(["up-down", "up-down", "up-down", "up-down", "parts-back", "parts-back",
+                                     "down-up", "parts-back-neg", "free", "home"]),
+                    st.lists(st.integers(1, 9), min_size=1, max_size=4),
+                    st.sampled_from([1, 1, -1]))
+
+
+def _expand_blocks(blocks, pos=0, munits=None):
+  """steps in units of 1/den; "home" goes down in one step from wherever the exact sum stands
+  (pos = the start, munits = the modulo, both in the same units) to the multiple of the modulo
+  below it"""
+  ks = []
+  for kind, parts, sgn in blocks:
+    tot = sum(parts)
+    if kind == "home":
+      here = (pos + sum(ks)) % munits if munits else 0
+      if here:
+        ks.append(-here)
+        continue
+      kind = "up-down"
+    if kind == "up-down":
+      ks += [tot] + [-p for p in parts]
+    elif kind == "down-up":
+      ks += [-tot] + list(parts)
+    elif kind == "parts-back":
+      ks += list(parts) + [-tot]
+    elif kind == "parts-back-neg":
+      ks += [-p for p in parts] + [tot]
+    else:
+      ks += [sgn * p for p in parts]
+  return ks
+
+
+def strat_modfloat(tier):
+  mx = 40 if tier == "quick" else 80
+  return st.fixed_dictionaries(dict(
+    kind=st.sampled_from(["decimal", "decimal", "decimal", "free"]),
+    den=st.sampled_from(_FDEN),
+    start=st.one_of(st.just(0), st.just(0), st.just(0), st.integers(-30, 30)),
+    start_laps=st.sampled_from([0, 0, 0, 1, -1, 2]),        # start + laps * modulo
+    modulo=st.one_of(st.sampled_from(["den", "den", "256", "2pi"]), st.integers(1, 40)),
+    blocks=st.lists(_FBLOCK, min_size=1, max_size=8),
+    step=st.integers(-9, 9),                                 # the step when it is a number
+    streams=st.sampled_from([(False, False, True), (False, False, True), (False, False, True),
+                             (False, False, False), (False, False, False), (True, False, False),
+                             (False, True, False), (False, True, True), (True, False, True), (True, False, True),
+                             (True, True, False), (True, True, True)]),   # start, modulo, step
+    vary=st.tuples(st.booleans(), st.booleans()),            # start, modulo (step streams always vary)
+    svals=st.lists(st.integers(-30, 30), min_size=1, max_size=6),
+    mvals=st.lists(st.integers(1, 40), min_size=1, max_size=4),
+    fstart=ffloat(-10, 10), fmod=st.floats(min_value=.01, max_value=300, allow_nan=False),
+    fsteps=st.lists(ffloat(-10, 10), min_size=1, max_size=12),
+    fneg=st.booleans(),                                      # free floats: append the negated steps, reversed
+    lens=st.tuples(st.integers(1, mx), st.integers(1, mx)),
+    n=st.integers(1, mx), route=_route))
+
+
+def run_modfloat(case):
+  kind, den = case["kind"], case["den"]
+  streams, vary, lens = case["streams"], case["vary"], case["lens"]
+  munits = None
+  if kind == "decimal":
+    f = lambda k: k / float(den)
+    mk = case["modulo"]
+    if mk == "den":
+      modulo, munits = 1., den
+    elif mk == "256":
+      modulo, munits = 256., 256 * den
+    elif mk == "2pi":
+      modulo = 2 * math.pi
+    else:
+      modulo, munits = f(mk), mk
+    kstart = case["start"] + (case["start_laps"] * munits if munits else 0)
+    start = f(kstart)
+    ksteps = _expand_blocks(case["blocks"], kstart, munits)
+    tsteps = [f(k) for k in ksteps]
+    step = f(case["step"])
+    svals = [f(k) for k in case["svals"]]
+    mvals = [f(k) for k in case["mvals"]]
+  else:
+    modulo, start = case["fmod"], case["fstart"]
+    tsteps = list(case["fsteps"])
+    if case["fneg"]:
+      tsteps = tsteps + [-v for v in reversed(tsteps)]
+    step = tsteps[0]
+    svals = [v * .5 for v in tsteps[:6]]
+    mvals = [modulo * .75, modulo + 1.5]
+  vals = [start, modulo, step]
+  lists = [None, None, None]
+  if streams[0]:
+    lists[0] = cyc([start] + svals, lens[0]) if vary[0] else [start] * lens[0]
+  if streams[1]:
+    lists[1] = cyc([modulo] + mvals, lens[1]) if vary[1] else [modulo] * lens[1]
+  if streams[2]:
+    lists[2] = list(tsteps) + [step]          # one more item: the value after the last step is seen too
+  finite = [len(l) for l in lists if l is not None]
+  n = min(finite) if finite else case["n"]
+  args = [vals[k] if lists[k] is None else feed(lists[k], case["route"]) for k in range(3)]
+  what = "modulo_counter(start=%r, modulo=%r, step=%r)" % tuple(
+    vals[k] if lists[k] is None else lists[k][:10] for k in range(3))
+  if finite:
+    got = pull(modulo_counter(*args), n + 3, what)
+  else:
+    got = take(modulo_counter(start=args[0], modulo=args[1], step=args[2]), n)
+  if len(got) != n:
+    raise Violation("%s: %d samples, expected %d (ends with its shortest stream argument)"
+                    % (what, len(got), n))
+  get = [(lambda i, k=k: vals[k] if lists[k] is None else lists[k][i]) for k in range(3)]
+  for i, g in enumerate(got):
+    m = get[1](i)
+    if not (isinstance(g, float) and 0 <= g < m):
+      raise Violation("%s: sample %d = %r is outside [0, %r) (got=%r)" % (what, i, g, m, got[:12]),
+                      site="modfloat:range")
+  # constant modulo: each value is the exact running sum of the given doubles, reduced, up to
+  # the accumulated rounding - measured round the circle (just under the modulo ~ just over 0)
+  const_mod = lists[1] is None or not vary[1]
+  landings = below = 0
+  if const_mod:
+    m = fr(modulo)
+    tol = Fraction(TOL) * max(1, m)
+    tot = Fraction(0)
+    for i in range(n):
+      closed = (fr(get[0](i)) + tot) % m
+      d = abs(fr(got[i]) - closed)
+      if min(d, m - d) > tol:
+        raise Violation("%s: sample %d is %r, (start + sum of earlier steps) mod modulo = %r"
+                        % (what, i, got[i], float(closed)), site="modfloat:value")
+      tot += fr(get[2](i))
+  if kind == "decimal" and munits and const_mod:
+    # landings: the sum in units of 1/den is a multiple of the modulo after at least one step
+    tot = 0
+    for i in range(n):
+      if lists[0] is None or not vary[0]:
+        ks = kstart
+      else:
+        ks = ([kstart] + list(case["svals"]))[i % (1 + len(case["svals"]))]
+      if i > 0 and (ks + tot) % munits == 0:
+        landings += 1
+        # where the float sum came out: on or just above zero (got tiny), or below (got ~ modulo,
+        # or exactly 0 after the reduction of "modulo" itself)
+        if got[i] > modulo / 2:
+          below += 1
+      tot += (ksteps[i] if i < len(ksteps) else case["step"]) if lists[2] is not None else case["step"]
+  # label only: the plain float recursion, watching for a remainder that a single "%" rounds up
+  # to the modulo itself (the sum is a rounding error below a multiple of the modulo)
+  hair = 0
+  c = lastp = 0.
+  for i in range(n):
+    c += get[0](i) - lastp
+    lastp = get[0](i)
+    r = c % get[1](i)
+    if r == get[1](i):
+      hair += 1
+    c = r % get[1](i) + get[2](i)
+  labels = ["branch:" + "".join("S" if s else "N" for s in streams), "kind:" + kind]
+  if hair:
+    labels.append("a hair below a multiple of modulo")
+  if landings:
+    labels.append("sum lands on a multiple of modulo")
+  if landings >= 2:
+    labels.append("lands twice or more")
+  if below:
+    labels.append("float sum ends below the multiple")
+  if any(get[2](i) < 0 for i in range(n)):
+    labels.append("negative step")
+  if any(streams[k] and vary[k] for k in range(2)) or streams[2]:
+    labels.append("varying stream")
+  return {"nontrivial": n >= 4 and (landings >= 1 or kind == "free"), "labels": labels}
 
 
 # --------------------------------------------------------------------------
@@ -570,7 +760,9 @@ def interp(tbl, pos):
 def strat_table(tier):
   fq = st.one_of(qf(-4, 4, 7), qf(-1, 1, 30))
   return st.fixed_dictionaries(dict(
-    mode=st.sampled_from(["getitem", "osc_exact", "osc_exact", "osc_float", "osc_stream"]),
+    mode=st.sampled_from(["getitem", "osc_exact", "osc_exact", "osc_float", "osc_stream", "osc_fstream"]),
+    fden=st.sampled_from(_FDEN), fblocks=st.lists(_FBLOCK, min_size=1, max_size=6),
+    flaps=st.sampled_from([0, 0, 1, 2, -1]),
     table=st.lists(qval(-3, 3), min_size=1, max_size=8),
     cycles=st.sampled_from([1, 1, 2, 3]),
     idx=st.one_of(qf(0, 20, 8), qf(0, 20, 8), st.integers(0, 20), st.integers(0, 160).map(lambda k: k / 8.)),
@@ -648,6 +840,29 @@ def run_table(case):
     pos = [(cl * fr(phase) + k * cl * fr(freq)) % L for k in range(n)]
     what = "TableLookup(%r, cycles=%d)(freq=%r, phase=%r)" % (tbl, cycles, freq, phase)
     cmp_seq(got, [interp(tbl, p) for p in pos], False, Fraction(TOL) * amp, what)
+  elif mode == "osc_fstream":
+    # vibrato / FM with ordinary floats: the frequency stream moves the read position forth and
+    # back by k / den table entries, so that it keeps returning to the table start (position 0 =
+    # position L) from both sides with a rounding error; every sample still is the interpolation
+    ks = _expand_blocks(case["fblocks"])
+    unit = (2 * math.pi * cycles / L) / case["fden"]         # freq that moves 1/den table entry
+    freqs = [k * unit for k in ks] + [unit]
+    phase = case["flaps"] * 2 * math.pi * cycles
+    n = len(freqs)
+    what = "TableLookup(%r, cycles=%d)(freq=Stream(%r), phase=%r)" % (tbl, cycles, freqs[:8], phase)
+    got = pull(t(Stream(freqs), phase) if case["flaps"] else t(Stream(freqs)), n + 3, what)
+    pos, tot, at0 = [], cl * fr(phase), 0
+    for k in range(n):
+      pos.append(tot % L)
+      tot += fr(cl * freqs[k])
+    acc = 0
+    for k in range(n):
+      if k and acc % (L * case["fden"]) == 0:
+        at0 += 1
+      acc += ks[k] if k < len(ks) else 1
+    cmp_seq(got, [interp(tbl, p) for p in pos], False, Fraction(TOL) * (amp + Fraction(1, 10 ** 6)), what)
+    if at0:
+      labels.append("position returns to the table start")
   else:
     n = case["slen"]
     freqs = cyc(case["freqs"], n)
@@ -677,48 +892,76 @@ def run_table(case):
 def strat_sinusoid(tier):
   ff = st.one_of(ffloat(-7, 7), qf(-4, 4, 9),
                  st.sampled_from([math.pi, math.pi / 2, 2 * math.pi, 0.1, -0.1, 0., 1e-3]))
+  # a whole number of samples per cycle (2*pi/N, most of them exact: 2*pi/freq == N in doubles)
+  whole = st.one_of(st.integers(1, 12), st.integers(1, 12), st.integers(1, 40)).map(_lag2freq)
   return st.fixed_dictionaries(dict(
-    freq=ff, phase=st.one_of(st.just("default"), ff), n=st.integers(1, 60),
+    freq=st.one_of(ff, ff, whole), phase=st.one_of(st.just("default"), ff), n=st.integers(1, 60),
     freq_stream=st.sampled_from([False, False, True]), freqs=st.lists(ff, min_size=1, max_size=5),
-    route=_route))
+    # phase modulation: the phase as a finite stream of numbers (constant, or changing all along)
+    phase_stream=st.booleans(), phases=st.lists(ff, min_size=1, max_size=6),
+    plen=st.one_of(st.integers(1, 60), st.integers(20, 60)), pvary=st.sampled_from([True, True, True, False]),
+    proute=_route, route=_route))
 
 
 def run_sinusoid(case):
   n = case["n"]
   phase = 0. if case["phase"] == "default" else case["phase"]
+  pstream = case["phase_stream"]
+  if pstream:
+    # item k of the phase stream is the phase of sample k; the output ends with the stream
+    pool = [phase] + (list(case["phases"]) if case["pvary"] else [])
+    plen = case["plen"]
+    # the pool is walked at a changing pace: no period of the phase stream fits one of the sinusoid
+    phases = [pool[(k + k // 5) % len(pool)] for k in range(plen)]
+    parg = feed(phases, case["proute"])
+  else:
+    phases = [phase] * n
+    parg = phase
   if case["freq_stream"]:
     freqs = cyc(case["freqs"], n)
-    s = sinusoid(feed(freqs, case["route"]), phase)
+    n = min(len(freqs), len(phases))          # either stream may be the shorter one
+    s = sinusoid(feed(freqs, case["route"]), parg)
     got = pull(s, n + 3, "sinusoid")
+  elif pstream:
+    n = len(phases)
+    freqs = [case["freq"]] * n
+    s = sinusoid(case["freq"], parg) if n % 2 else sinusoid(case["freq"], phase=parg)
+    got = pull(s, n + 3, "sinusoid(freq=%r, phase=%s of %d items)" % (case["freq"], case["proute"], n))
   else:
     freqs = [case["freq"]] * n
     s = sinusoid(case["freq"]) if case["phase"] == "default" else sinusoid(case["freq"], phase=phase)
     got = take(s, n)
   if len(got) != n:
-    raise Violation("sinusoid: %d samples, expected %d" % (len(got), n))
-  tot = fr(phase)
+    raise Violation("sinusoid(freq=%r, phase=%r): %d samples, expected %d (it ends with its shortest "
+                    "finite freq / phase stream)" % (freqs[:6], phases[:6], len(got), n))
+  tot = Fraction(0)
   for k in range(n):
-    e = math.sin(float(tot))
+    e = math.sin(float(fr(phases[k]) + tot))
     if not (isinstance(got[k], float) and abs(got[k] - e) <= TOL):
       raise Violation("sinusoid(freq=%r, phase=%r)[%d] = %r, sin(phase + n*freq) = %r"
-                      % (freqs[:6], phase, k, got[k], e))
+                      % (freqs[:6], phases[:8] if pstream else phase, k, got[k], e))
     tot += fr(freqs[k])
-  labels = ["sinusoid", "freq stream" if case["freq_stream"] else "freq number"]
-  span = abs(tot - fr(phase))
+  labels = ["sinusoid", "freq stream" if case["freq_stream"] else "freq number",
+            "phase stream" if pstream else "phase number"]
+  span = abs(tot)
   if span > 7:
     labels.append("wrapped")
   if not case["freq_stream"] and fr(case["freq"]) < 0:
     labels.append("negative freq")
-  return {"nontrivial": n >= 4 and span > 0, "labels": labels}
+  if not case["freq_stream"] and case["freq"] != 0:
+    period = 2 * math.pi / abs(float(fr(case["freq"])))
+    if period == int(period):
+      labels.append("whole samples per cycle")
+      if pstream and n > period and len(set(phases[int(period):])) > 1:
+        labels.append("phase stream changes after the first cycle")
+  if pstream and len(set(phases)) > 1:
+    labels.append("varying phase stream")
+  return {"nontrivial": n >= 4 and (span > 0 or len(set(phases)) > 1), "labels": labels}
 
 
 # --------------------------------------------------------------------------
 # karplus_strong
 # --------------------------------------------------------------------------
-def _lag2freq(lag):
-  return 2 * math.pi / lag
-
-
 def strat_karplus(tier):
   return st.fixed_dictionaries(dict(
     freq=st.one_of(st.floats(min_value=.45, max_value=3.1, allow_nan=False),
@@ -949,13 +1192,26 @@ CLAUSES = [
                         "varying stream": .15}),
          doc="modulo_counter == modcount_ref and == (start + sum of earlier steps) mod modulo on all 8 "
              "number/stream branches and the batched fast path"),
+  Clause("modcount_float", strat_modfloat, run_modfloat, quick=700, thorough=12000,
+         floors=dict([("branch:" + b, .012) for b in ["NNN", "NSN", "NSS", "SNN", "SNS", "SSN", "SSS"]],
+                     **{"branch:NNS": .1, "kind:free": .05, "kind:decimal": .2, "negative step": .2,
+                        "sum lands on a multiple of modulo": .12, "lands twice or more": .08,
+                        "a hair below a multiple of modulo": .02}),
+         doc="modulo_counter with ordinary floats (k/10, k/3, ... and free doubles) whose running sum keeps coming "
+             "back to a multiple of the modulo from either side: every value lies in [0, modulo) on all 8 "
+             "number/stream branches, and (constant modulo) within 1e-9 round the circle of the exact sum"),
   Clause("table", strat_table, run_table, quick=600, thorough=12000,
          floors={"table:getitem": .06, "table:osc_exact": .1, "table:osc_float": .05,
-                 "table:osc_stream": .05, "wrapped": .15},
-         doc="TableLookup[idx] and oscillator == cyclic linear interpolation"),
+                 "table:osc_stream": .05, "wrapped": .15, "table:osc_fstream": .03,
+                 "position returns to the table start": .03},
+         doc="TableLookup[idx] and oscillator == cyclic linear interpolation (exact rational freq / phase as "
+             "numbers and streams; float numbers; float frequency streams that keep returning to the table start)"),
   Clause("sinusoid", strat_sinusoid, run_sinusoid, quick=300, thorough=6000,
-         floors={"freq stream": .08, "wrapped": .1},
-         doc="sinusoid == sin(phase + sum of earlier freq) within 1e-9"),
+         floors={"freq stream": .08, "wrapped": .1, "phase stream": .12, "whole samples per cycle": .08,
+                 "varying phase stream": .05, "phase stream changes after the first cycle": .01},
+         doc="sinusoid == sin(phase[n] + sum of earlier freq) within 1e-9, freq and phase each a number or a "
+             "finite stream (incl. frequencies with a whole number of samples per cycle); ends with the "
+             "shortest stream"),
   Clause("karplus", strat_karplus, run_karplus, quick=300, thorough=6000,
          floors={"fractional delay": .2, "integer delay": .05, "feedback reached": .2,
                  "lag<1": .12, "1<=lag<2": .1, "lag>=2": .2},
